@@ -7,6 +7,7 @@ length bound and (b) grammar-generated names and their near misses.
 """
 import io
 import itertools
+import zlib
 
 from .. import reftypes
 from ..ctx import Discrepancy
@@ -100,15 +101,45 @@ def check_one(ctx, s, stream, case=None):
     return ref is not None
 
 
+_MARK = object()
+_MARKER = []
+
+
+def _marker_codec():
+    if not _MARKER:
+        from gtirb.serialization import Codec
+
+        class Marker(Codec):
+            @staticmethod
+            def decode(raw_bytes, *a, **k):
+                return _MARK
+
+            @staticmethod
+            def encode(out, item, *a, **k):
+                pass
+        _MARKER.append(Marker)
+    return _MARKER[0]
+
+
 def check_public(ctx, s):
     """TypeNameError from the public decode() iff the grammar rejects."""
     from gtirb.serialization import Serialization, TypeNameError
 
     ref = reftypes.parse(s)
     ser = Serialization()
+    # half of the time a codec is registered, the documented way, under the
+    # whole string (a key of the table may be any string, the grammar's
+    # *names* never hold a delimiter): acceptance is still the grammar's,
+    # and the marker codec may only ever be reached when the whole string
+    # is one plain name
+    marked = zlib.crc32(s.encode("utf-8", "surrogatepass")) % 2 == 0
+    if marked:
+        ser.codecs[s] = _marker_codec()
+        ctx.count("public_checked_with_codec_registered_under_the_string")
     raised = None
+    got = None
     try:
-        ser.decode(b"", s)
+        got = ser.decode(b"", s)
     except TypeNameError:
         raised = "TypeNameError"
     except RecursionError:
@@ -125,6 +156,13 @@ def check_public(ctx, s):
         raise Discrepancy("C15", "public-decode-rejects",
                           "Serialization.decode(b'', %r) raised "
                           "TypeNameError for a grammatical name" % s[:200],
+                          {"input": s})
+    if marked and got is _MARK and any(c in s for c in "<>,"):
+        raise Discrepancy("C15", "public-decode-wrong-tree:whole-string-"
+                          "taken-as-a-name",
+                          "Serialization.decode(b'', %r) reached the codec "
+                          "registered under the whole string: the tree used "
+                          "was a single name holding delimiters" % s[:200],
                           {"input": s})
     # encode() entry: the type name is parsed before any value is looked at
     raised = None
